@@ -270,7 +270,10 @@ func (c *Checker) finish(evidPath string) int {
 		"evaluations":         len(c.obs),
 		"distinct_nontrivial": len(c.seen),
 		"rule":                "one obligation per rule/function/construct; distinct by that key; every obligation is a non-trivial proof task on the current source",
-		"exhaustive":          true,
+		// exhaustive: the obligations of a proof-level check cover the statement
+		// itself; for level other the enumerated family is complete but the
+		// property's space is not finite, so the flag stays false
+		"exhaustive": c.Level == "proof",
 	}
 	for k, v := range c.extra {
 		cov[k] = v
